@@ -261,6 +261,8 @@ static void check_loaded_route(Ctx &c, const Cfg &cfg0, const std::string &hist)
         double v = 1.0; for(int j=0;j<d;j++){ double tcan = (cfg.fam == F_GLOBAL || cfg.fam == F_SEQUENCE) ? canon1(cfg, p[j], j) : p[j]; if (cc0) v *= (1.0 - tcan*tcan) * ipow(tcan, sel[s][j] - 2); else v *= ipow(tcan, sel[s][j]); } return v; };
     auto xs = g.getNeededPoints(); int n = g.getNumNeeded(); std::vector<double> vals((size_t) n * outs);
     for(int i=0;i<n;i++) for(size_t s=0;s<sel.size();s++){ if (cfg.fam == F_FOURIER){ vals[(size_t) i*outs + 2*s] = f(&xs[(size_t) i*d], s, 0); vals[(size_t) i*outs + 2*s+1] = f(&xs[(size_t) i*d], s, 1); } else vals[(size_t) i*outs + s] = f(&xs[(size_t) i*d], s, 0); }
+    // the members are loaded as an OVERWRITING reload: other numbers go in first (same number of points: whatever is kept between loads and validated by a count is then stale)
+    { std::vector<double> decoy(vals.size()); for(size_t i=0;i<vals.size();i++) decoy[i] = 0.25 * (double)(i % 3) - 1.5 * vals[i]; g.loadNeededValues(decoy); c.transitions++; }
     g.loadNeededValues(vals); c.transitions++; c.states++;
     double tol = (cfg.fam == F_WAVELET) ? 1e-7 : 1e-9;
     // a domain far from the origin and narrow loses digits in the domain map itself: the canonical image of a transformed node is only known to
